@@ -150,6 +150,32 @@ def Cell.shift (src dst : Region) (base : Nat) : Cell → Cell
 def copyArena (h : Heap) (src dst : Region) (base : Nat) : List Cell :=
   (h.arena src).map (Cell.shift src dst base)
 
+/-! ### formatting (`Context.get_formatted_value`, `RecursiveFormatter._get_formatted_iterable`) -/
+
+/-- Where a reference inside a formatted object points.  Formatting walks the object graph with a
+    `memo` (sharing is kept, like `deepcopy`) and for every object either REBUILDS it
+    (`obj.__class__(formatted children…)`: a new object in the run's arena) or RETURNS IT AS IT IS (the
+    very same object).  `keep` = the objects (indices in `src`'s arena) that are returned as they are.
+    The code as it is: strings without `{` and all other non-container leaves are returned as they
+    are, EVERY container - also an empty one - is rebuilt.  Leaves are immutable atoms here, a leaf
+    handed back as it is cannot be told from a copy, and like `deepcopy`'s the model gives the result
+    its own leaf cells: so the code as it is has `keep = []`; a `keep` that names a container is a
+    formatter that hands a shared container to the run by reference. -/
+def shiftKeep (keep : List Nat) (src dst : Region) (base : Nat) (x : Ref) : Ref :=
+  if x.reg = src && keep.contains x.idx then x else shiftRef src dst base x
+
+def Cell.shiftKeep (keep : List Nat) (src dst : Region) (base : Nat) : Cell → Cell
+  | .leaf v => .leaf v
+  | .list rs => .list (rs.map (RunHeap.shiftKeep keep src dst base))
+  | .dict kvs => .dict (kvs.map fun kv => (kv.1, RunHeap.shiftKeep keep src dst base kv.2))
+
+/-- The formatted copy of the object graph of the shared region `src` (brace-free values, so
+    formatting changes no leaf), at addresses `base…` of `dst`; as for `copyArena` the whole arena is
+    rebuilt - a superset of the graph reachable from the formatted object, with the same sharing.
+    The formatted value of the object at `⟨src, i⟩` is `shiftKeep keep src dst base ⟨src, i⟩`. -/
+def fmtArena (h : Heap) (keep : List Nat) (src dst : Region) (base : Nat) : List Cell :=
+  (h.arena src).map (Cell.shiftKeep keep src dst base)
+
 /-! ### paths -/
 
 inductive Seg where
@@ -214,12 +240,21 @@ inductive Op where
   /-- `Pipeline.new_pipe_and_args`: `sc_dict = copy.deepcopy(shortcut['args'])`, which then
       initialises the context: deep-copy the config dict `src`, bind all its keys. -/
   | shortcutArgsCopy (src : Ref)
+  /-- A decorator input / step attribute of the cached definition that is COPIED BY FORMATTING and
+      then stored in the run: `Step.foreach_loop` (`foreach = context.get_formatted_value(self.foreach_items)`,
+      `context['i'] = item`: `path = []`, `k = "i"`, `src` = the item in the definition),
+      `Step.save_error` (`failure['customError'] = context.get_formatted_value(self.on_error)`, kept
+      under `context['runErrors'][n]`).  `d[k] = formatted(src)` for the dict `d` at `path`; `keep`:
+      the objects the formatter hands back as they are instead of rebuilding them (see `shiftKeep`;
+      `[]` for the code as it is). -/
+  | fmtSetAt (path : Path) (k : String) (src : Ref) (keep : List Nat)
   deriving Repr, Inhabited
 
 /-- The operation language of the code as it is now (no aliasing of shared objects). -/
 def Op.fixed : Op → Bool
   | .inAlias _ _ => false
   | .configvarsAlias => false
+  | .fmtSetAt _ _ _ keep => keep.isEmpty
   | _ => true
 
 /-- What one operation does: new objects for the run's own arena, at most one in-place write. -/
@@ -316,6 +351,18 @@ def effect (h : Heap) (r : Nat) : Op → Option Effect
       | some y => some ⟨[], some (root r, .dict (kvSet kvs dst y))⟩
       | none => none
     | _ => none
+  | .fmtSetAt path k src keep =>
+    if src.reg.isShared then
+      match resolve h (root r) path with
+      | none => none
+      | some x =>
+        match h.get? x with
+        | some (.dict kvs) =>
+          let base := (h.arena (.run r)).length
+          some ⟨fmtArena h keep src.reg (.run r) base,
+                some (x, .dict (kvSet kvs k (shiftKeep keep src.reg (.run r) base src)))⟩
+        | _ => none
+    else none
 
 def apply (h : Heap) (r : Nat) (e : Effect) : Heap :=
   let h1 := h.alloc (.run r) e.allocs
@@ -353,6 +400,64 @@ def Heap.init (defs : List Block) (cfg : Block) : Heap :=
         | none => []
     | .config => Block.relocate cfg .config 0
     | .run _ => []⟩
+
+/-! ### objects that outlive a run: `pypyr.pipeline.Pipeline` -/
+
+/-- What a `pypyr.pipeline.Pipeline` object keeps from one call of `run(context)` to the next:
+    `steps_runner`, a `StepsRunner`, which is bound to the `Context` it was constructed with
+    (`runner = some r`: bound to run r's context; `none`: never run).  `pipeline_definition` is
+    fetched from the loader cache again on every call and the other slots are constructor inputs,
+    which belong to the caller. -/
+structure PipeObj where
+  runner : Option Nat
+  deriving DecidableEq, Repr, Inhabited
+
+/-- `Pipeline._run_pipeline(context)`: which `StepsRunner` executes the step groups of a call. -/
+inductive RunnerRule where
+  /-- as it is: `steps_runner = StepsRunner(pipeline_body=…, context=context)` on EVERY call -/
+  | perCall
+  /-- a runner kept on the object and used again by the later calls -/
+  | keepFirst
+  deriving DecidableEq, Repr, Inhabited
+
+/-- One call `obj.run(context)` where `context` is run `run`'s `Context`.  `pre`: what is done to the
+    context handed in, not through the runner (`Context(dict_in)` by the caller, `_prepare_context`:
+    `context.update(<parser result>)`); `steps`: the operations of the step groups.  `(none, op)` is
+    executed by the call's `StepsRunner` on the context THAT RUNNER is bound to; `(some r', op)` acts
+    on the context of the nested run `r'` – a child pipeline that `pypyr.steps.pype` runs with a
+    context of its own (`useParentContext: false`): that `Context`, its `Pipeline` object and its
+    runner are all made by the step while it runs. -/
+structure Call where
+  obj : Nat
+  run : Nat
+  pre : List Op
+  steps : List (Option Nat × Op)
+  deriving Repr, Inhabited
+
+/-- The operations of a call whose runner is bound to the context of run `target`. -/
+def Call.sched (c : Call) (target : Nat) : Sched :=
+  solo c.run c.pre ++ c.steps.map fun s => (s.1.getD target, s.2)
+
+/-- The object after a call for run `r`, and the run whose context the call's steps act on. -/
+def PipeObj.call (rule : RunnerRule) (p : PipeObj) (r : Nat) : PipeObj × Nat :=
+  match rule, p.runner with
+  | .keepFirst, some r0 => (p, r0)
+  | _, _ => (⟨some r⟩, r)
+
+/-- All `Pipeline` objects of the process, by number. -/
+abbrev Objs := Nat → PipeObj
+
+def Objs.fresh : Objs := fun _ => ⟨none⟩
+
+def Objs.put (objs : Objs) (o : Nat) (p : PipeObj) : Objs := fun o' => if o' = o then p else objs o'
+
+/-- The operations a history of calls (on the same or on different objects, in this order)
+    performs. -/
+def callsSched (rule : RunnerRule) (objs : Objs) : List Call → Sched
+  | [] => []
+  | c :: rest =>
+    let pt := (objs c.obj).call rule c.run
+    c.sched pt.2 ++ callsSched rule (objs.put c.obj pt.1) rest
 
 /-! ### observations (driver, examples) -/
 
